@@ -1,0 +1,9 @@
+//go:build verif && linux
+
+package packets
+
+import "os"
+
+// VerifAFPacketSourceFromFile wraps an already open socket in the AF_PACKET Source implementation,
+// so that its Read / SetPacketFilter logic can be driven over a socket pair.
+func VerifAFPacketSourceFromFile(f *os.File) Source { return &afPacketSource{sock: f} }
